@@ -88,9 +88,24 @@ impl WorkspaceIndex {
     }
 
     /// Re-analyze a file by reading it from disk.
+    ///
+    /// Afterwards the index holds for `path` exactly what indexing the
+    /// workspace from scratch would hold: files that `index_all` leaves out
+    /// (test files) or that do not exist on disk are dropped instead of
+    /// keeping the analysis of the editor buffer that was just discarded.
     pub fn update_from_disk(&mut self, path: &Path) {
-        if let Ok(content) = std::fs::read_to_string(path) {
-            self.update_from_content(path, &content);
+        if !is_ucg_source(path) {
+            self.files.remove(path);
+            return;
+        }
+        match std::fs::read_to_string(path) {
+            Ok(content) => self.update_from_content(path, &content),
+            // An existing but unreadable file is indexed as empty, like
+            // `index_all` does.
+            Err(_) if path.is_file() => self.update_from_content(path, ""),
+            Err(_) => {
+                self.files.remove(path);
+            }
         }
     }
 
